@@ -2,7 +2,7 @@
    Proofs/ExportSM_proofs.v over the state machine Model/ExportSM.v (file system x registry; export / export_all /
    export_all_to with the recursive walk, after the fix e6b6a1a that normalises in export_to). *)
 From TsRs Require Import Base.Str Base.Outcome Gen.Tables Model.Path Model.Merge Model.MergeSpec Model.Imports Model.ExportSM
-  Spec.PathOracle Proofs.Path_proofs Proofs.Merge_history_proofs Proofs.ExportSM_proofs.
+  Spec.PathOracle Proofs.Path_proofs Proofs.Merge_algebra_proofs Proofs.Merge_history_proofs Proofs.ExportSM_proofs.
 From Coq Require Import List.
 Import ListNotations.
 
@@ -59,6 +59,29 @@ Theorem C06_final_files_are_canonical :
          content_at (s_fs st') q = Some (canonical_file items)).
 Proof. intros cfg U h fs st' rs Hc. exact (final_files_canonical cfg U Hc h fs st' rs). Qed.
 
+(* .. spelled out for two histories: different call orders, entry points, spellings, initial trees (fs1, fs2 arbitrary) —
+   if what reaches a path is the same set of good items (as lists: any permutation), the file is the same, byte for byte *)
+Theorem C06_history_independent :
+  forall cfg U h1 h2 fs1 fs2 st1 rs1 st2 rs2 q, names_ok (c_cwd cfg) ->
+    forallb is_export h1 = true -> run cfg U (init_state fs1) h1 = (st1, rs1) ->
+    forallb is_export h2 = true -> run cfg U (init_state fs2) h2 = (st2, rs2) ->
+    forall items1 items2,
+      run_raw f_init (map (fun i => (it_ident i, item_text i)) items1) = Ok (view st1 q) ->
+      run_raw f_init (map (fun i => (it_ident i, item_text i)) items2) = Ok (view st2 q) ->
+      items1 <> [] -> good_history items1 -> good_history items2 -> Permutation.Permutation items1 items2 ->
+      content_at (s_fs st1) q = content_at (s_fs st2) q /\ content_at (s_fs st1) q = Some (canonical_file items1).
+Proof.
+  intros cfg U h1 h2 fs1 fs2 st1 rs1 st2 rs2 q Hc Hh1 H1 Hh2 H2 items1 items2 R1 R2 Hne G1 G2 Hp.
+  assert (Hne2 : items2 <> []) by (intros ->; apply Permutation.Permutation_sym, Permutation.Permutation_nil in Hp; contradiction).
+  assert (C1 : content_at (s_fs st1) q = Some (canonical_file items1)).
+  { rewrite run_raw_items in R1. pose proof (file_after_canonical items1 Hne G1) as Hc1. unfold file_after in Hc1. rewrite R1 in Hc1. cbn [omap] in Hc1.
+    injection Hc1 as Hc1. unfold view in Hc1. destruct (reg_get (s_reg st1) q); cbn [f_content f_init] in Hc1; [exact Hc1 | discriminate Hc1]. }
+  assert (C2 : content_at (s_fs st2) q = Some (canonical_file items2)).
+  { rewrite run_raw_items in R2. pose proof (file_after_canonical items2 Hne2 G2) as Hc2. unfold file_after in Hc2. rewrite R2 in Hc2. cbn [omap] in Hc2.
+    injection Hc2 as Hc2. unfold view in Hc2. destruct (reg_get (s_reg st2) q); cbn [f_content f_init] in Hc2; [exact Hc2 | discriminate Hc2]. }
+  split; [|exact C1]. rewrite C1, C2. f_equal. apply canonical_file_perm; [exact (proj1 (proj2 (proj2 G1))) | exact Hp].
+Qed.
+
 (* every export text is the text of an item (notice, import groups, declaration block), so the last clause applies *)
 Theorem C06_export_text_is_an_item :
   forall esm cwd U i dir s, export_to_string esm cwd U i dir = Ok s ->
@@ -90,3 +113,4 @@ Print Assumptions C06_first_touch_truncates.
 Print Assumptions C06_one_path_is_a_C05_file.
 Print Assumptions C06_final_files_are_canonical.
 Print Assumptions C06_export_text_is_an_item.
+Print Assumptions C06_history_independent.
